@@ -488,6 +488,8 @@ pub trait Prim: Copy + crate::nd::Nd + PartialEq + core::fmt::Debug {
     /// bit i of the two's-complement pattern, sign-/zero-extended beyond the width
     fn pbit(self, i: u32) -> bool;
     fn pneg(self) -> bool;
+    /// are all bits at positions >= lo equal to the sign (0 for unsigned)?  i.e. |value| fits below bit lo
+    fn high_is_sign(self, lo: u32) -> bool;
 }
 macro_rules! prim {
     ($($t:ty : $s:expr),*) => {$(
@@ -499,6 +501,11 @@ macro_rules! prim {
             }
             #[allow(unused_comparisons)]
             #[inline(always)] fn pneg(self) -> bool { self < 0 }
+            #[allow(unused_comparisons)]
+            #[inline(always)] fn high_is_sign(self, lo: u32) -> bool {
+                // `>>` is arithmetic for signed primitives: the remaining bits are all-sign exactly when the result is 0 / -1
+                lo >= <$t>::BITS || (self >> lo) == if self < 0 { !0 } else { 0 }
+            }
         }
     )*};
 }
@@ -529,5 +536,115 @@ pub fn fits_in<D: Dig, const N: usize>(src: &[D; N], s_signed: bool, wt: u32, t_
         }
         k += 1;
     }
+    ok
+}
+
+// ------------------------------------------------------------------------------------------------
+/// value of an N-digit array (at most 128 bits) as u128 / sign-extended i128
+#[inline(always)]
+pub fn dval_u128<D: Dig, const N: usize>(d: &[D; N]) -> u128 {
+    let mut v = 0u128;
+    let mut i = 0;
+    while i < N {
+        v |= (d[i].to_u64() as u128) << (i as u32 * D::BITS);
+        i += 1;
+    }
+    v
+}
+#[inline(always)]
+pub fn dval_i128<D: Dig, const N: usize>(d: &[D; N]) -> i128 {
+    let w = D::BITS * N as u32;
+    let v = dval_u128(d);
+    if w >= 128 { v as i128 } else { ((v << (128 - w)) as i128) >> (128 - w) }
+}
+
+/// IEEE-754 value decoded independently of bnum: (negative, class, m, e) with magnitude = m * 2^e, m integer
+#[derive(Clone, Copy, PartialEq)]
+pub enum FClass { Nan, Inf, Finite }
+#[inline(always)]
+pub fn decode32(b: u32) -> (bool, FClass, u64, i32) {
+    let neg = b >> 31 == 1;
+    let ex = ((b >> 23) & 0xff) as i32;
+    let fr = (b & 0x7f_ffff) as u64;
+    if ex == 255 { return (neg, if fr != 0 { FClass::Nan } else { FClass::Inf }, 0, 0); }
+    if ex == 0 { (neg, FClass::Finite, fr, 1 - 127 - 23) } else { (neg, FClass::Finite, fr | (1 << 23), ex - 127 - 23) }
+}
+#[inline(always)]
+pub fn decode64(b: u64) -> (bool, FClass, u64, i32) {
+    let neg = b >> 63 == 1;
+    let ex = ((b >> 52) & 0x7ff) as i32;
+    let fr = b & ((1u64 << 52) - 1);
+    if ex == 2047 { return (neg, if fr != 0 { FClass::Nan } else { FClass::Inf }, 0, 0); }
+    if ex == 0 { (neg, FClass::Finite, fr, 1 - 1023 - 52) } else { (neg, FClass::Finite, fr | (1 << 52), ex - 1023 - 52) }
+}
+#[inline(always)]
+fn low_mask(k: u32) -> u64 { if k >= 64 { u64::MAX } else { (1u64 << k) - 1 } }
+/// bit i of M = floor(m * 2^e)
+#[inline(always)]
+pub fn mag_bit(m: u64, e: i32, i: u32) -> bool {
+    if e >= 0 {
+        let e = e as u32;
+        i >= e && i - e < 64 && (m >> (i - e)) & 1 == 1
+    } else {
+        let s = (-e) as u32;
+        let mm = if s >= 64 { 0 } else { m >> s };
+        i < 64 && (mm >> i) & 1 == 1
+    }
+}
+/// is any bit of M = floor(m * 2^e) below position i set?
+#[inline(always)]
+pub fn mag_any_below(m: u64, e: i32, i: u32) -> bool {
+    if e >= 0 {
+        let e = e as u32;
+        i > e && m & low_mask(i - e) != 0
+    } else {
+        let s = (-e) as u32;
+        let mm = if s >= 64 { 0 } else { m >> s };
+        mm & low_mask(i) != 0
+    }
+}
+/// bit length of M = floor(m * 2^e) (0 for M = 0)
+#[inline(always)]
+pub fn mag_bits(m: u64, e: i32) -> i32 {
+    let l = 64 - m.leading_zeros() as i32 + e;
+    if m == 0 || l < 0 { 0 } else { l }
+}
+/// Rust `as` from a float to a w-bit integer, as a bit-indexed specification
+#[inline(always)]
+pub fn float_as_int_bit(dec: (bool, FClass, u64, i32), w: u32, signed: bool, i: u32) -> bool {
+    let (neg, class, m, e) = dec;
+    let top = i == w - 1;
+    match class {
+        FClass::Nan => false,
+        FClass::Inf => if signed { if neg { top } else { !top } } else { !neg },
+        FClass::Finite => {
+            let l = mag_bits(m, e);
+            if !signed {
+                if neg { false } else if l > w as i32 { true } else { mag_bit(m, e, i) }
+            } else if !neg {
+                if l > w as i32 - 1 { !top } else { mag_bit(m, e, i) }
+            } else if l > w as i32 - 1 {
+                top // magnitude >= 2^(w-1): saturates to MIN (exactly 2^(w-1) is MIN as well)
+            } else {
+                // -M = !M + 1: bit i of M is kept while everything below is zero, inverted above the lowest set bit
+                mag_bit(m, e, i) != mag_any_below(m, e, i)
+            }
+        }
+    }
+}
+
+/// is the digit array the signed minimum (only the top bit set) / minus one (all ones)?
+#[inline(always)]
+pub fn is_min_s<D: Dig, const N: usize>(a: &[D; N]) -> bool {
+    let mut ok = a[N - 1].to_u64() == 1u64 << (D::BITS - 1);
+    let mut k = 0;
+    while k + 1 < N { ok &= a[k] == D::ZERO; k += 1; }
+    ok
+}
+#[inline(always)]
+pub fn is_all_ones<D: Dig, const N: usize>(a: &[D; N]) -> bool {
+    let mut ok = true;
+    let mut k = 0;
+    while k < N { ok &= a[k] == D::MAXD; k += 1; }
     ok
 }
